@@ -235,6 +235,16 @@ def variants(spec):
     out.append(("edge IDs with gaps", {}, gaps, F.relabel(spec, edge_ids=gaps)))
     strs = ["e%s" % (9 - i) for i in base_ids]
     out.append(("edge IDs -> strings", {}, strs, F.relabel(spec, edge_ids=strs)))
+    # IDs need only be hashable: tuples, frozensets (partially ordered), several types at once (not orderable), floats
+    tups = [("e", 9 - i) for i in base_ids]
+    out.append(("edge IDs -> tuples", {}, tups, F.relabel(spec, edge_ids=tups)))
+    fsets = [frozenset({"id", i}) for i in base_ids]
+    out.append(("edge IDs -> frozensets", {}, fsets, F.relabel(spec, edge_ids=fsets)))
+    mix = ["a", 7, (1, 2), 2.5, frozenset({1}), b"z"][:m]
+    if m <= 6:
+        out.append(("edge IDs -> mixed types", {}, mix, F.relabel(spec, edge_ids=mix)))
+    flo = [10.5 - i for i in base_ids]
+    out.append(("edge IDs -> decreasing floats", {}, flo, F.relabel(spec, edge_ids=flo)))
     # insertion orders
     for perm in itertools.permutations(base_ids):
         if list(perm) == base_ids:
